@@ -7,7 +7,7 @@ from typing import Dict, List, Optional, Set, Tuple
 
 from ..cfg import CFG
 from ..model import AnchorError, Program, dotted, kw, last_attr, norm, parent, walk_no_nested
-from ..report import Check
+from ..report import Check, guard
 from .c12 import grammar, visitor_methods
 from .common import calls_in, guards_of, local_assignments, need_locals, returns_of, stmt_of
 
@@ -302,8 +302,8 @@ def r01_cde(prog: Program, chk: Check) -> None:
 
 
 def run(prog: Program, chk: Check) -> None:
-    r01_a(prog, chk)
-    r01_b(prog, chk)
-    r01_cde(prog, chk)
-    r01_f(prog, chk)
-    index_range_rule(prog, chk, "R01.f")
+    guard(chk, r01_a, prog, chk)
+    guard(chk, r01_b, prog, chk)
+    guard(chk, r01_cde, prog, chk)
+    guard(chk, r01_f, prog, chk)
+    guard(chk, index_range_rule, prog, chk, "R01.f")
